@@ -287,6 +287,9 @@ func vfGenFailCmd(t *rapid.T, m *vfModel) vfCmd {
 			}
 		}
 		c.Spec.Name = c.Svc
+		if (c.Op == "deploy" || c.Op == "rollout-deploy") && len(c.Targets) > 0 && vfTargetNameOK(c.Targets[0]) && rapid.IntRange(0, 4).Draw(t, "dup-target") == 0 {
+			c.Targets = append([]string{c.Targets[0]}, c.Targets...) // the same address listed twice
+		}
 		probe := m.clone()
 		got := probe.apply(c)
 		if len(got) == 1 && got[0] == "ok" {
